@@ -26,6 +26,7 @@ CONFIG = dict(
         "Compact(start,limit) with explicit bounds is required to cover the prefixed range (the property text only speaks about "
         "whole-table compaction; this reading holds trivially for the current code)",
     ],
+    level_more='Unit TestC24Migrate: tables handed out by MigrateTables for anonymous, run-time made and same-named function-local struct types.',
     units=[
         dict(test="TestC24", quick=12000, thorough=1600000, shards=16, steps=40),
         dict(test="TestC24CompactPrefixes", kind="plain"),
